@@ -10,11 +10,13 @@ package main
 //   with the sdp given as a bytes token, OnNewRtspSubSessionPlay with nil / an error (<playok>).
 //   Output: the observer callbacks and the responses written, in order, then the state of the
 //   command session when the loop has returned.  A response is printed as
-//   r:<status>:<header names>:<CSeq>:<Transport, server ports masked>:<body>.
+//   r:<status>:<header names>:<CSeq>:<Transport, server ports masked>:<body>, wr:... when it came as one
+//   WebSocket frame (header and text in one write).
 //   The last token, leak:<n>, counts the sockets this case opened (the UDP connections of
 //   SETUP) that are still open after the sessions have been disposed.
 
 import (
+	"bufio"
 	"bytes"
 	"errors"
 	"fmt"
@@ -25,12 +27,14 @@ import (
 	"strings"
 	"time"
 
+	"github.com/q191201771/lal/pkg/base"
 	"github.com/q191201771/lal/pkg/rtsp"
 )
 
 type c13CmdConn struct {
 	in []byte
 	ev *[]string
+	ws bool
 }
 
 var c13ServerPortRe = regexp.MustCompile(`server_port=\d+-\d+`)
@@ -44,6 +48,18 @@ func (c *c13CmdConn) Read(b []byte) (int, error) {
 	return n, nil
 }
 func (c *c13CmdConn) Write(b []byte) (int, error) {
+	n := len(b)
+	tag := "r"
+	if c.ws && len(b) > 0 && b[0] == 0x82 {
+		// a WebSocket frame: header and response text have to arrive in this one write
+		r := bufio.NewReader(bytes.NewReader(b))
+		payload, err := base.ReadWsPayload(r)
+		if err != nil || r.Buffered() != 0 || !bytes.HasPrefix(payload, []byte("RTSP/1.0 ")) {
+			*c.ev = append(*c.ev, "wsjunk:"+tokBytes(b))
+			return n, nil
+		}
+		b, tag = payload, "wr"
+	}
 	if bytes.HasPrefix(b, []byte("RTSP/1.0 ")) {
 		head, body := b, []byte(nil)
 		if i := bytes.Index(b, []byte("\r\n\r\n")); i >= 0 {
@@ -72,9 +88,9 @@ func (c *c13CmdConn) Write(b []byte) (int, error) {
 				transport = c13ServerPortRe.ReplaceAllString(val, "server_port=S")
 			}
 		}
-		*c.ev = append(*c.ev, fmt.Sprintf("r:%s:%s:%s:%s:%s", code, strings.Join(names, "+"), tokBytes([]byte(cseq)), tokBytes([]byte(transport)), tokBytes(body)))
+		*c.ev = append(*c.ev, fmt.Sprintf(tag+":%s:%s:%s:%s:%s", code, strings.Join(names, "+"), tokBytes([]byte(cseq)), tokBytes([]byte(transport)), tokBytes(body)))
 	}
-	return len(b), nil
+	return n, nil
 }
 func (c *c13CmdConn) Close() error                       { return nil }
 func (c *c13CmdConn) LocalAddr() net.Addr                { return fakeAddr{} }
@@ -147,7 +163,7 @@ func init() {
 		var ev []string
 		in := bytesTok(a[4])
 		obs := &c13CmdObs{ev: &ev, pubOk: boolTok(a[1]), desc: a[2], playOk: boolTok(a[3])}
-		sess := rtsp.NewServerCommandSession(obs, &c13CmdConn{in: in, ev: &ev}, rtsp.ServerAuthConfig{}, boolTok(a[0]), "")
+		sess := rtsp.NewServerCommandSession(obs, &c13CmdConn{in: in, ev: &ev, ws: boolTok(a[0])}, rtsp.ServerAuthConfig{}, boolTok(a[0]), "")
 		_ = sess.RunLoop()
 		state := sess.VerifState()
 		if obs.pub != nil {
